@@ -43,7 +43,8 @@ REQUIRED_THEOREMS = ["accept_at_most_once", "recorded_at_most_once", "forged_nev
                      "notification_fresh_piv", "observe_response_fresh_piv", "forged_request_no_association",
                      "client_association_never_responds", "own_piv_strictly_increasing", "own_nonce_never_reused",
                      "response_nonce_is_peers", "accept_at_most_once_across_restarts", "nothing_below_echo_request",
-                     "request_nonce_used_at_most_once", "request_nonce_used_at_most_once_per_life", "nonce_never_reused"]
+                     "request_nonce_used_at_most_once", "request_nonce_used_at_most_once_per_life", "nonce_never_reused",
+                     "forged_b2_response_no_trace", "forged_b2_history_no_trace"]
 RULE = ("recipient: histories of <= 30 protected messages delivered through coap_oscore_decrypt_pdu to ONE fresh recipient context: "
         "requests (authentic with/without/with wrong Echo, forged with any claimed Partial IV) and, interleaved, responses to an "
         "Observe registration of that endpoint (authentic notifications carrying the peer's sequence number as Partial IV, forged "
@@ -409,6 +410,11 @@ def generate(ctx, escalate=False):
         out.append(gen_nonces(rng))
     for i in range(n // 3):
         out.append(gen_endp(rng))
+    b2 = ["b2c " + " ".join(e) for k in (1, 2, 3) for e in itertools.product(["z", "i", "u", "e", "f0", "f3", "f8"], repeat=k)]
+    b2 += [gen_b2c(rng) for _ in range(n // 12)]
+    ctx.cov["b2c"] = ("Appendix B.2 client response path, responses that do not verify: all sequences of length <= 3 over 7 kid "
+                      "context forms + %d random (%d cases)" % (n // 12, len(b2)))
+    out += b2
     nx = exhaustive_nonces(4 if thorough else 3)
     ne = exhaustive_endp(4 if thorough else 3)
     ctx.cov["endp"] = ("whole sender side (tokens shared by both roles, Echo, save callback, crash/restart): all op sequences of "
@@ -751,8 +757,60 @@ def judge_endp(ctx, c):
     return None
 
 
+B2_ID1 = "1122334455667788"
+
+
+def judge_b2c(ctx, c):
+    """Appendix B.2, client side: every event of a `b2c` line is a response that does NOT verify.  Property on the
+    implementation's own output: each is dropped and leaves b_2_step, the ID Context, the Sender Key and the sender
+    sequence number exactly as they were (STEP_1, ID1 of the configuration, the key derived from ID1)."""
+    i, m = c["impl"] or "", c["model"] or ""
+    if i.startswith("crash"):
+        return ("spec", "the implementation aborted: " + i[:200])
+    evs = c["input"].split()[1:]
+    toks = i.split()
+    if len(toks) != len(evs):
+        return ("tie", "harness printed %d results for %d events: %s" % (len(toks), len(evs), i[:120]))
+    first, stripped = None, []
+    for k, (ev, t) in enumerate(zip(evs, toks)):
+        if t in ("bad-ev", "fail"):
+            stripped.append(t)
+            continue
+        try:
+            verdict, st = t.split(":")
+            step, idc, key, seq = st.split(",")
+        except ValueError:
+            return ("tie", "unexpected harness token %r" % t)
+        if verdict != "drop":
+            return ("spec", "event %d (%s): a response that does not verify was not dropped (%s)" % (k + 1, ev, verdict))
+        if step != "1" or idc != B2_ID1:
+            return ("spec", "event %d (%s): a forged response changed the Appendix B.2 state of the client: b_2_step %s, "
+                            "ID Context %s (was STEP_1, %s)" % (k + 1, ev, step, idc, B2_ID1))
+        if first is None:
+            first = (key, seq)
+        elif (key, seq) != first:
+            return ("spec", "event %d (%s): a forged response changed the Sender Key / sequence number: %s,%s -> %s,%s"
+                    % (k + 1, ev, first[0], first[1], key, seq))
+        stripped.append("%s:%s,%s" % (verdict, step, idc))
+    if " ".join(stripped) != m:
+        return ("tie", "implementation %s but model M says %s" % (" ".join(stripped)[:170], m[:170]))
+    return None
+
+
+def gen_b2c(rng):
+    n = rng.randint(1, 8)
+    evs = []
+    for _ in range(n):
+        c = rng.random()
+        evs.append("z" if c < 0.15 else "i" if c < 0.3 else "u" if c < 0.4 else "e" if c < 0.5
+                   else "f%d" % rng.choice([0, 1, 2, 7, 8, 8, 9, 16, 23, rng.randint(0, 23)]))
+    return "b2c " + " ".join(evs)
+
+
 def judge(ctx, c):
     op = c["input"].split()[0]
+    if op == "b2c":
+        return judge_b2c(ctx, c)
     if op == "endp":
         return judge_endp(ctx, c)
     if op == "nonces":
@@ -782,6 +840,8 @@ def nontrivial(c):
         return any(t[0].isdigit() for t in i.split())
     if op in ("nonces", "endp"):
         return "/" in i
+    if op == "b2c":
+        return "drop:" in i
     return i.startswith("1:") or i.startswith("0:")
 
 
@@ -838,8 +898,8 @@ def shrink(ctx, case):
     from vlib.runner import diff_side
     import props.C15 as me
     w = case["input"].split()
-    hdr = 6 if w[0] == "replayst" else 2 if w[0] == "nonces" else 5 if w[0] == "endp" else 3
-    if w[0] not in ("replay", "replayst", "sender", "nonces", "endp") or len(w) < hdr + 2:
+    hdr = 6 if w[0] == "replayst" else 2 if w[0] == "nonces" else 5 if w[0] == "endp" else 1 if w[0] == "b2c" else 3
+    if w[0] not in ("replay", "replayst", "sender", "nonces", "endp", "b2c") or len(w) < hdr + 2:
         return case
     best, evs = case, w[hdr:]
     changed, rounds = True, 0
